@@ -99,6 +99,19 @@ Definition op_prefix (logged want : op) : bool :=
   | _, _ => false
   end.
 
+(** A failed operation is matched on its kind and path only (the shim fails a write at its seek,
+    before the data is known). *)
+Definition op_same_target (a b : op) : bool :=
+  match a, b with
+  | MkdirAll p, MkdirAll q | OpenW p _ _, OpenW q _ _ | SetLen p _, SetLen q _ | WriteAt p _ _, WriteAt q _ _ => path_eqb p q
+  | _, _ => false
+  end.
+
+(** A read is matched on path and offset; it may return fewer bytes than asked for (end of file),
+    never more; a failed read is matched on the path only. *)
+Definition read_matches (p : path) (off len : N) (p' : path) (off' : N) (r : option (list N)) : bool :=
+  path_eqb p p' && match r with None => true | Some d => (off =? off') && (N.of_nat (length d) <=? len) end.
+
 Fixpoint walk (pg : prog) (evs : list event) (n : nat) : walk_result :=
   match pg with
   | Ret o => match evs with [] => WDone o | _ => WExtra n end
@@ -112,14 +125,14 @@ Fixpoint walk (pg : prog) (evs : list event) (n : nat) : walk_result :=
   | Read p off len k =>
       match evs with
       | [] => WCut
-      | ERead p' off' len' r :: rest => if path_eqb p p' && (off =? off') && (len =? len') then walk (k r) rest (S n) else WMismatch n
+      | ERead p' off' len' r :: rest => if read_matches p off len p' off' r then walk (k r) rest (S n) else WMismatch n
       | _ => WMismatch n
       end
   | Mut o k =>
       match evs with
       | [] => WCut
       | [EMut o' true] => if op_eqb o o' then walk (k true) [] (S n) else if op_prefix o' o then WCut else WMismatch n
-      | EMut o' ok :: rest => if op_eqb o o' then walk (k ok) rest (S n) else WMismatch n
+      | EMut o' ok :: rest => if (if ok then op_eqb o o' else op_same_target o o') then walk (k ok) rest (S n) else WMismatch n
       | _ => WMismatch n
       end
   end.
